@@ -70,7 +70,8 @@ def make_problem(spec):
     edims = tuple(int(x) for x in enc["edims"])
     kind = enc["state"]
     prob_shape = enc.get("prob_shape", "scalar")
-    v0 = None if spec.get("v0") is None else jnp.asarray(np.asarray(spec["v0"], dtype=np.float64))
+    v0_np_dtype = np.int32 if enc.get("v0_dtype") == "int" else np.float64
+    v0 = None if spec.get("v0") is None else jnp.asarray(np.asarray(spec["v0"], dtype=v0_np_dtype))
     pol0 = None if spec.get("pol0") is None else jnp.asarray(A_np[np.asarray(spec["pol0"], dtype=np.int64)])
 
     def s_index(state):
